@@ -2,8 +2,8 @@
    Proved here: the order-theoretic core on structured treespecs, and the three-way equivalence
    flatten_up_to <-> is_prefix <-> prefix_errors (three separately written implementations, one of
    them Python), each tied to the code by the correspondence run (cmd 3, cmd 25). *)
-From OptreeModel Require Import Base Tree Flatten Unflatten Spec Accessor PrefixErr PrefixArr.
-From OptreeProofs Require Import SpecProofs OrderProofs PrefixOrder JoinOrder FlattenGood UpToProofs UpToPrefix UpToPartition UpToPaths UpToTop PrefixErrProofs PrefixAntisym PrefixArrProofs.
+From OptreeModel Require Import Base Tree Flatten Unflatten Spec Accessor PrefixErr PrefixArr UpToArr.
+From OptreeProofs Require Import SpecProofs OrderProofs PrefixOrder JoinOrder FlattenGood UpToProofs UpToPrefix UpToPartition UpToPaths UpToTop PrefixErrProofs PrefixAntisym PrefixArrProofs UpToArrProofs.
 From Coq Require Import Permutation.
 
 (* reflexive; comparing a treespec with itself never is a strict prefix *)
@@ -102,6 +102,24 @@ Theorem C07_cpp_is_prefix_loop_general :
     arr_is_prefix (spec_of a) (spec_of b) strict = Ok (ss_is_prefix a b strict).
 Proof. exact arr_is_prefix_spec. Qed.
 Print Assumptions C07_cpp_is_prefix_loop_general.
+
+(* THE OTHER C++ LOOP. PyTreeSpec::FlattenUpTo as flatten.cpp runs it — a reverse iterator over the node
+   array, an agenda (stack) of the objects still to be matched with the last child on top, the result
+   list filled from its end, the three ways it ends — returns exactly the tree-level flatten_up_to of
+   the model: same subtrees in the same order, same error. *)
+Theorem C07_cpp_flatten_up_to_loop :
+  forall c t nl ns o, wf_stree t = true -> good t = true ->
+  arr_flatten_up_to c {| trav := encode t; snil := nl; sns := ns |} o = up_to c t o.
+Proof. exact arr_flatten_up_to_spec. Qed.
+Print Assumptions C07_cpp_flatten_up_to_loop.
+
+Theorem C07_cpp_flatten_up_to_loop_of_flattened :
+  forall c o1 ls1 sp1 s1 o,
+    wf_obj o1 = true -> flatten c o1 = Ok (ls1, sp1) -> sspec_of sp1 = Some s1 ->
+    arr_flatten_up_to {| c_nil := snil sp1; c_ns := sns sp1; c_pred := None; c_reg := c_reg c; c_ins := []; c_limit := 0 |} sp1 o
+    = ss_flatten_up_to (c_reg c) s1 o.
+Proof. exact arr_flatten_up_to_of_flattened. Qed.
+Print Assumptions C07_cpp_flatten_up_to_loop_of_flattened.
 
 (* a prefix never has more nodes than what it is a prefix of (the loop's two size short cuts are sound) *)
 Theorem C07_prefix_has_fewer_nodes :
